@@ -184,9 +184,27 @@ theorem C17_codegen_refs_resolve (s : SymRepr) (hnd : (takenOf s).Nodup) (m : Mo
   simp only [genModule, genModuleWith] at h
   split at h
   · cases h
-  · simp only [Except.ok.injEq] at h
-    subst h
-    exact (genState_spec s hnd).2.2
+  · split at h
+    · cases h
+    · simp only [Except.ok.injEq] at h
+      subst h
+      exact (genState_spec s hnd).2.2
+
+/-- the refusal of two different functions under one name never fires when the function names of derived quantities and
+    reactions are pairwise distinct — on the import path they are the ids of the document's rules and reactions -/
+theorem C17_names_check_passes_on_distinct (s : SymRepr) (hnd : ((compFns s).map (·.fnName)).Nodup) :
+    namesConsistent s = true := by
+  simp only [namesConsistent, List.all_eq_true]
+  intro f hf
+  cases hw : writtenRef (compFns s) f.fnName with
+  | none => rfl
+  | some g =>
+    have hg := List.find?_some hw
+    have hmem := List.mem_of_find?_eq_some hw
+    simp only [Bool.and_eq_true, beq_iff_eq] at hg
+    have := eq_of_name_eq_of_nodup _ hnd f hf g hmem hg.1
+    subst this
+    simp
 
 /-- **No overwrite happens**: the emitted function names are pairwise distinct, and there is one definition per
     function the representation asks for (initial assignments, derived quantities, reactions, computed
@@ -197,13 +215,15 @@ theorem C17_codegen_function_names_distinct (s : SymRepr) (hnd : (takenOf s).Nod
   simp only [genModule, genModuleWith] at h
   split at h
   · cases h
-  · rename_i hdup
-    simp only [Except.ok.injEq] at h
-    subst h
-    refine ⟨(genState_spec s hnd).1, (genState_spec s hnd).2.1, ?_⟩
-    intro kv hkv
-    simp only [List.any_eq_true, not_exists, not_and, Bool.not_eq_true] at hdup
-    exact hdup kv hkv
+  · split at h
+    · cases h
+    · rename_i hdup
+      simp only [Except.ok.injEq] at h
+      subst h
+      refine ⟨(genState_spec s hnd).1, (genState_spec s hnd).2.1, ?_⟩
+      intro kv hkv
+      simp only [List.any_eq_true, not_exists, not_and, Bool.not_eq_true] at hdup
+      exact hdup kv hkv
 
 /-- the witness of F-C17-9: before the repair (names handed out were not added to `taken`) parameters `a` and
     `a_` with initial assignments next to a derived quantity called `init_a` both got `init_a_`; `a` was then
